@@ -347,3 +347,94 @@ Proof.
   induction evs as [|ev evs IH]; intros st; cbn [ct_hist_okb ct_hist_ok]; auto.
   rewrite andb_true_iff. intros [H1 H2]. split; [apply ct_ev_okb_sound, H1|apply IH, H2].
 Qed.
+
+(* ================================================================== round 4: set-if-absent in both tiers; redis-only *)
+Lemma ctc_step_true mx st ev : ctc_step true mx st ev = ct_step mx st ev.
+Proof. destruct ev; reflexivity. Qed.
+
+Lemma ctc_run_true mx evs : forall st, ctc_run true mx st evs = ct_run mx st evs.
+Proof.
+  induction evs as [|ev evs IH]; intros st; cbn [ctc_run ct_run]; [reflexivity|].
+  rewrite ctc_step_true. destruct (ct_step mx st ev) as [st1 o]. rewrite IH. reflexivity.
+Qed.
+
+(* redis: SET ... NX onto a live value changes nothing *)
+Lemma redis_set_nx_live r now stored expire k v e :
+  ct_rfind k r = Some e -> now < re_dead e -> redis_set r now stored expire k v true = r.
+Proof.
+  intros Hf Hl. unfold redis_set. destruct (Z.quot (expire - now) MILLI <=? 10); [reflexivity|].
+  rewrite Hf. apply Z.ltb_lt in Hl. rewrite Hl. reflexivity.
+Qed.
+
+(* an error response is stored set-if-absent in both tiers: neither a present memory node nor a live redis value is
+   displaced - with or without a memory backend *)
+Lemma tier_negative_keeps hm mx st t eps k m pk :
+  negative m = true ->
+  let st1 := fst (ctc_store hm mx st t eps k (Some m) pk) in
+  (forall e, cp_find k (st_map (ct_mem st)) = Some e -> ct_mem st1 = ct_mem st) /\
+  (forall e, ct_rfind k (ct_red st) = Some e -> t + eps < re_dead e -> ct_red st1 = ct_red st).
+Proof.
+  intros Hn. destruct hm; cbn [ctc_store].
+  - split.
+    + intros e Hf. rewrite ct_store_mem.
+      destruct (store_negative_keeps mx (ct_mem st) t eps k m pk e Hn Hf) as (o & -> & _). reflexivity.
+    + intros e Hf Hl. unfold ct_store.
+      destruct (cachectl_store mx (ct_mem st) t eps k (Some m) pk) as [mem' o].
+      destruct o; cbn [fst ct_red]; try reflexivity; rewrite Hn; apply (redis_set_nx_live _ _ _ _ _ _ e Hf Hl).
+  - split; [intros e Hf|intros e Hf Hl];
+      (destruct (h_tc (m_hdr m)); [reflexivity|]; destruct (negb pk); [reflexivity|]; cbn [fst ct_mem ct_red]).
+    + reflexivity.
+    + rewrite Hn. apply (redis_set_nx_live _ _ _ _ _ _ e Hf Hl).
+Qed.
+
+Lemma tier_negative_nx_history hm mx evs : forall st, ct_steps_sat (ct_neg_keeps hm mx) hm mx st evs.
+Proof.
+  induction evs as [|ev evs IH]; intros st; cbn [ct_steps_sat]; [exact I|]. split; [|apply IH].
+  destruct ev as [c|k|k|t eps k resp pk|t k|now s0 x0 k v nx|k]; cbn [ct_neg_keeps]; auto.
+  destruct resp as [m|]; auto. intros Hn. cbn [ctc_step]. apply tier_negative_keeps. exact Hn.
+Qed.
+
+(* the clause as the client sees it, redis-only configuration: while redis holds a live answer for the key, storing an
+   error response for it changes no later lookup *)
+Lemma redis_only_error_invisible mx st t eps k m pk e :
+  negative m = true -> ct_rfind k (ct_red st) = Some e -> t + eps < re_dead e ->
+  forall t2 k2, snd (ctc_get false (fst (ctc_store false mx st t eps k (Some m) pk)) t2 k2) = snd (ctc_get false st t2 k2).
+Proof.
+  intros Hn Hf Hl t2 k2.
+  destruct (tier_negative_keeps false mx st t eps k m pk Hn) as [_ Hr]. specialize (Hr e Hf Hl).
+  unfold ctc_get. cbn [ctc_store] in *. rewrite Hr.
+  destruct (ct_rfind k2 (ct_red st)) as [e2|]; [destruct (t2 <? re_dead e2)|]; reflexivity.
+Qed.
+
+(* redis-only configuration: the deadlines invariant and expiry *)
+Lemma red_ok_ctc_false mx st ev : red_ok st -> red_ok (fst (ctc_step false mx st ev)).
+Proof.
+  intros Hr. destruct ev as [c|k|k|t eps k resp pk|t k|now s0 x0 k v nx|k]; cbn [ctc_step ct_step].
+  - exact Hr.
+  - destruct (cp_step mx (ct_mem st) (EvCollect k)) as [m' o]. exact Hr.
+  - destruct (cp_step mx (ct_mem st) (EvEvict k)) as [m' o]. exact Hr.
+  - cbn [ctc_store]. destruct resp as [m|]; [|exact Hr].
+    destruct (h_tc (m_hdr m)); [exact Hr|]. destruct (negb pk); [exact Hr|]. apply red_ok_set. exact Hr.
+  - cbn [ctc_get]. destruct (ct_rfind k (ct_red st)) as [e|]; [|exact Hr].
+    destruct (t <? re_dead e); [exact Hr|]. apply red_ok_remove. exact Hr.
+  - apply red_ok_set. exact Hr.
+  - apply red_ok_remove. exact Hr.
+Qed.
+
+Lemma red_ok_ctc_run_false mx evs : forall st, red_ok st -> red_ok (fst (ctc_run false mx st evs)).
+Proof.
+  induction evs as [|ev evs IH]; intros st Hr; cbn [ctc_run]; [exact Hr|].
+  pose proof (red_ok_ctc_false mx st ev Hr) as H1. destruct (ctc_step false mx st ev) as [st1 o]. cbn [fst] in H1.
+  specialize (IH st1 H1). destruct (ctc_run false mx st1 evs). exact IH.
+Qed.
+
+(* no clock assumption at all is needed here: redis expires on the wall clock *)
+Lemma redis_only_hit_before_expiry mx clk0 evs t k st' m' s x :
+  ctc_get false (fst (ctc_run false mx (ct_init clk0) evs)) t k = (st', OHit m' s x) -> t < x + SECOND.
+Proof.
+  assert (Hr : red_ok (fst (ctc_run false mx (ct_init clk0) evs))).
+  { apply red_ok_ctc_run_false. intros k0 e H. discriminate. }
+  unfold ctc_get. destruct (ct_rfind k (ct_red (fst (ctc_run false mx (ct_init clk0) evs)))) as [e|] eqn:Ef; [|discriminate].
+  destruct (t <? re_dead e) eqn:El; [|discriminate]. apply Z.ltb_lt in El.
+  intros H; inversion H; subst. pose proof (Hr k e Ef) as Hd. unfold rentry_ok in Hd. lia.
+Qed.
